@@ -143,7 +143,9 @@ def _targeted(rng):
     base = {"did": "a123bc", "key": "18", "now": 1700000000.0, "tz": "UTC", "replies": [H.login_reply(b"\x01\x02\x03\x04"), "00"]}
     for m in list(range(0, 201)) + [2 ** 32 // 60 + d for d in range(-2, 3)]:
         out.append(dict(base, req={"op": "control", "on": m % 2, "minutes": m}))
-    for s in list(range(3540, 3720)) + list(range(86280, 86460)) + [-60, 0, 59, 60]:
+    # whole days must count: a value that is in range only modulo 24 h is out of range
+    far = [86400 + 3600, 86400 + 7200, 90000, 2 * 86400, 2 * 86400 + 5000, 365 * 86400 + 40000, -7200, -86400 + 7200, -86400, -3 * 86400 + 50000]
+    for s in list(range(3540, 3720)) + list(range(86280, 86460)) + [-60, 0, 59, 60] + far:
         for us in (0, 1, 999_999):
             out.append(dict(base, req={"op": "autoshutdown", "micros": s * 1_000_000 + us}))
     for i in "01234567":
